@@ -572,7 +572,15 @@ fn run_case<T: Val, C: ArrayLength + PartialEq>(ops: &[ROp], pat: &[bool], steps
                 return out.join(";");
             }
             Some(()) => match no_panic(|| observe_all(&regs)) {
-                Some(o) => out.push(o),
+                Some(o) => {
+                    out.push(o);
+                    // a matrix whose rows() field disagrees with its data vector is already a rejected
+                    // observation; going on would run ravel_mut()/fill() out of bounds (undefined
+                    // behaviour that can take the whole harness process down): the case ends here
+                    if regs.iter().any(|m| m.rows() != m.iter().len()) {
+                        return out.join(";");
+                    }
+                }
                 None => {
                     out.push("OBSPANIC".to_string());
                     return out.join(";");
